@@ -3,12 +3,14 @@
 //!             conform drive  <module> <seed> <steps> <out.ndjson> [extra-json]
 mod abi;
 mod binder;
+mod bridge;
 mod common;
 mod drive_abi;
 mod drive_gas;
 mod drive_gateway;
 mod drive_its;
 mod drive_token;
+mod fees;
 mod gas;
 mod gateway;
 mod its;
@@ -120,6 +122,7 @@ fn compare(inst: &J, step: &J, pre: &J, obs: &common::Obs, proj: &J) -> Option<J
 
 fn replay_walk(module: &str, inst: &J, walk: &J) -> J {
     let steps = walk["steps"].as_array().unwrap();
+    common::LONG_PAUSES.with(|l| l.set(walk.get("aging").and_then(|x| x.as_str()) != Some("A")));
     let mut b = make_binder(module, inst, &walk["init"]);
     let mut pre = walk["init"].clone();
     // the initial projection must match the initial state
